@@ -1,6 +1,6 @@
 (* C07 -- pinned property theorems about the reference interpreter (nothing else lives here) *)
 From Coq Require Import ZArith NArith List Bool String.
-From V Require Import Base.Term Engine.Sld Engine.SldProofs C07.Model.
+From V Require Import Base.Term Engine.Sld Engine.SldProofs Engine.SldRel Engine.SldRelProofs C07.Model.
 Import ListNotations.
 Open Scope N_scope.
 
@@ -127,3 +127,150 @@ Example ex_naf : solve 20 ex_facts (cm "\+" [cm "p" [Int 4]]) (at_ "yes") = Done
 Proof. vm_compute. reflexivity. Qed.
 Example ex_disj_hyp : snd (run 1 20 ex_facts (cm "p" [Var 0]) (Var 0)) = SNorm /\ is_arrow (cm "p" [Var 0]) = None.
 Proof. vm_compute. auto. Qed.
+
+(* ===================================================================================================================
+   The interpreter against an INDUCTIVE derivation semantics (Engine/SldRel.v: answers_rel prog g s l = "goal g started in
+   state s has exactly the answer states l, in this order and multiplicity", textbook depth-first left-to-right resolution
+   stated without fuel, continuations, signals or cut barriers).
+   FRAGMENT of all theorems below (pure_goal / pure_prog): true, fail, false, (A , B), (A ; B), A = B and calls of user
+   predicates (names not reserved by the interpreter's ftable) -- no cut, if-then-else, \+, call/N inside, no other
+   builtins, no exceptions (a predicate without clauses has no derivation).  The relation uses the interpreter's unification
+   function and its renaming-apart convention (fresh-name counter in the state), so the statements are exact equalities of
+   answer lists. *)
+
+(* soundness: a completed exception-free run returns a derivable answer list (order and multiplicity included), and no log *)
+Theorem sld_sound : forall prog q tmpl n a lg, pure_prog prog -> pure_goal q ->
+  solve n prog q tmpl = Done a None lg ->
+  exists l, answers_rel prog q (init_state q tmpl) l /\ a = map (inst tmpl) l /\ lg = [].
+Proof. exact sld_sound_lemma. Qed.
+Print Assumptions sld_sound.
+
+(* completeness for terminating derivations: a derivation of the whole answer list gives a fuel from which on solve returns it
+   (no purity hypothesis is needed: the relation only has rules for the pure fragment) *)
+Theorem sld_complete : forall prog q tmpl l, answers_rel prog q (init_state q tmpl) l ->
+  exists n, forall m, (n <= m)%nat -> solve m prog q tmpl = Done (map (inst tmpl) l) None [].
+Proof. exact sld_complete_lemma. Qed.
+Print Assumptions sld_complete.
+
+Theorem sld_sound_complete : forall prog q tmpl a lg, pure_prog prog -> pure_goal q ->
+  ((exists n, solve n prog q tmpl = Done a None lg) <->
+   (exists l, answers_rel prog q (init_state q tmpl) l /\ a = map (inst tmpl) l /\ lg = [])).
+Proof. exact sld_sound_complete_lemma. Qed.
+Print Assumptions sld_sound_complete.
+
+(* the same inside any context: under ANY continuation k that returns no cut / commit signal for a frame younger than the
+   state (all continuations the interpreter builds), running g is running k over the derivable answer list, in order,
+   stopping at the first continuation call that does not end normally *)
+Theorem exec_complete_any_continuation : forall prog g s l, answers_rel prog g s l ->
+  exists n, forall m, (n <= m)%nat -> forall cb k c, c <= ctr s -> ksafe_on c k l ->
+    exec m prog g cb s k = run_list k l.
+Proof. exact rel_exec. Qed.
+Print Assumptions exec_complete_any_continuation.
+
+Theorem exec_sound_nice_continuation : forall prog, pure_prog prog -> forall n g cb s k, pure_goal g -> knice k ->
+  sound_at (exec n prog g cb s k) (answers_rel prog g s) k.
+Proof. exact exec_sound_all. Qed.
+Print Assumptions exec_sound_nice_continuation.
+
+(* the relation is a partial function of (goal, state): the ordered answer list is unique *)
+Theorem answers_rel_functional : forall prog g s l l', answers_rel prog g s l -> answers_rel prog g s l' -> l = l'.
+Proof. exact answers_functional. Qed.
+Print Assumptions answers_rel_functional.
+
+(* call/1 of a pure goal, exact form (both directions, any state, relative to the relation): call(G) in state s runs the
+   instantiated goal G.sub(s) from the state whose fresh-name counter is one higher (the frame id call/1 takes) *)
+Theorem call_pure_rel_complete : forall prog g s l, pure_goal g ->
+  answers_rel prog (apply (sub s) g) (bump s) l ->
+  exists n, forall m, (n <= m)%nat -> forall cb k c, c <= ctr s -> ksafe_on c k l ->
+    exec m prog (t_call g) cb s k = run_list k l.
+Proof. exact call_pure_complete. Qed.
+Print Assumptions call_pure_rel_complete.
+
+Theorem call_pure_rel_sound : forall prog n g cb s k, pure_prog prog -> pure_goal g -> knice k ->
+  sound_at (exec n prog (t_call g) cb s k) (answers_rel prog (apply (sub s) g) (bump s)) k.
+Proof. exact call_pure_sound. Qed.
+Print Assumptions call_pure_rel_sound.
+
+Theorem call_body_rel : forall prog g tmpl a lg, pure_prog prog -> pure_goal g ->
+  ((exists n, solve n prog (t_call g) tmpl = Done a None lg) <->
+   (exists l, answers_rel prog g (bump (init_state g tmpl)) l /\ a = map (inst tmpl) l /\ lg = [])).
+Proof. exact call_body_rel_lemma. Qed.
+Print Assumptions call_body_rel.
+
+(* call(G) and G have the same answers.  PARTIAL: proved (1) only in the direction G ==> call(G) (if the query G completes
+   with answers a, then the query call(G) completes with the same number of answers in the same order, each the
+   corresponding answer of G with the fresh variables -- those numbered above the variables of G and the template --
+   renamed v -> v+1, hence a variant; ground answers are identical); (2) only for top-level queries (empty substitution).
+   MISSING: the converse direction (termination of call(G) implies termination of G: needs the inverse renaming, which is
+   not injective on all of N), and call(G) inside a clause body, where in addition the goal is instantiated by the current
+   substitution before it is run (needs: running G.sigma under sigma = running G under sigma, a property of `unify`
+   over idempotent substitutions that is not proved here).  For those cases only call_pure_rel_* / call_body_rel hold. *)
+Theorem call_body_equiv_partial : forall prog g tmpl n a lg, pure_prog prog -> pure_goal g ->
+  solve n prog g tmpl = Done a None lg ->
+  exists n', solve n' prog (t_call g) tmpl =
+             Done (map (rename (up_from (N.max (nvars g) (nvars tmpl) + 1))) a) None [].
+Proof. exact call_body_equiv_lemma. Qed.
+Print Assumptions call_body_equiv_partial.
+
+Theorem call_body_variants_partial : forall prog g tmpl n a lg, pure_prog prog -> pure_goal g ->
+  solve n prog g tmpl = Done a None lg ->
+  exists n' a', solve n' prog (t_call g) tmpl = Done a' None [] /\ map canon a' = map canon a.
+Proof. exact call_body_variants_lemma. Qed.
+Print Assumptions call_body_variants_partial.
+
+(* the derivation relation is invariant under moving the fresh variables up by one (used for call/1) *)
+Theorem answers_rel_equivariant : forall prog b g s l, answers_rel prog g s l -> b <= ctr s ->
+  answers_rel prog (rename (up_from b) g) (rst b s) (map (rst b) l).
+Proof. intros prog b. exact (proj1 (answers_rename prog b)). Qed.
+Print Assumptions answers_rel_equivariant.
+
+(* derived forms over a PURE condition (Then / Else / continuation arbitrary, any goals):
+   ( C -> T ; E ) commits to the FIRST derivable answer of C or runs E when C has none; once(G) likewise;
+   \+ G succeeds once without bindings iff the instantiated G has no derivable answer *)
+Theorem ite_pure_cond : forall prog c t e s l, answers_rel prog c (bump s) l ->
+  exists n, forall m, (n <= m)%nat -> forall cb k,
+    exec (S m) prog (t_ite c t e) cb s k =
+      match l with [] => exec m prog e cb (bump s) k | s1 :: _ => exec m prog t cb s1 k end.
+Proof. exact ite_pure_lemma. Qed.
+Print Assumptions ite_pure_cond.
+
+Theorem once_pure : forall prog g s l, answers_rel prog g (bump s) l ->
+  exists n, forall m, (n <= m)%nat -> forall cb k,
+    exec (S m) prog (t_once g) cb s k = match l with [] => ([], SNorm) | s1 :: _ => k s1 end.
+Proof. exact once_pure_lemma. Qed.
+Print Assumptions once_pure.
+
+Theorem naf_pure : forall prog g s l, pure_goal g ->
+  answers_rel prog (apply (sub s) g) (bump (bump s)) l ->
+  exists n, forall m, (n <= m)%nat -> forall cb k,
+    exec (S m) prog (t_naf g) cb s k = match l with [] => k (bump s) | _ :: _ => ([], SNorm) end.
+Proof. exact naf_pure_lemma. Qed.
+Print Assumptions naf_pure.
+
+(* non-vacuity of the new theorems: a pure program and query (the hypotheses hold), a derivation exists, and it is the one
+   the interpreter finds; the query with two solutions per solution shows order and multiplicity *)
+Example ex_pure_prog : pure_prog ex_facts.
+Proof. repeat constructor. Qed.
+Example ex_pure_goal : pure_goal (cm "," [cm "p" [Var 0]; cm ";" [cm "=" [Var 1; Var 0]; cm "p" [Var 1]]]).
+Proof.
+  apply PConj; [eapply PUser; vm_compute; reflexivity |].
+  apply PDisj; [apply PUnify | eapply PUser; vm_compute; reflexivity].
+Qed.
+Example ex_rel_answers : exists l,
+  answers_rel ex_facts (cm "," [cm "p" [Var 0]; cm ";" [cm "=" [Var 1; Var 0]; cm "p" [Var 1]]])
+              (init_state (cm "," [cm "p" [Var 0]; cm ";" [cm "=" [Var 1; Var 0]; cm "p" [Var 1]]]) (cm "a" [Var 0; Var 1])) l
+  /\ map (inst (cm "a" [Var 0; Var 1])) l =
+     [cm "a" [Int 1; Int 1]; cm "a" [Int 1; Int 1]; cm "a" [Int 1; Int 2]; cm "a" [Int 1; Int 3];
+      cm "a" [Int 2; Int 2]; cm "a" [Int 2; Int 1]; cm "a" [Int 2; Int 2]; cm "a" [Int 2; Int 3];
+      cm "a" [Int 3; Int 3]; cm "a" [Int 3; Int 1]; cm "a" [Int 3; Int 2]; cm "a" [Int 3; Int 3]].
+Proof.
+  destruct (sld_sound ex_facts (cm "," [cm "p" [Var 0]; cm ";" [cm "=" [Var 1; Var 0]; cm "p" [Var 1]]]) (cm "a" [Var 0; Var 1]) 20
+              [cm "a" [Int 1; Int 1]; cm "a" [Int 1; Int 1]; cm "a" [Int 1; Int 2]; cm "a" [Int 1; Int 3];
+               cm "a" [Int 2; Int 2]; cm "a" [Int 2; Int 1]; cm "a" [Int 2; Int 2]; cm "a" [Int 2; Int 3];
+               cm "a" [Int 3; Int 3]; cm "a" [Int 3; Int 1]; cm "a" [Int 3; Int 2]; cm "a" [Int 3; Int 3]] []
+              ex_pure_prog ex_pure_goal) as (l & Hr & Ha & _).
+  - vm_compute. reflexivity.
+  - exists l. split; [exact Hr | symmetry; exact Ha].
+Qed.
+Example ex_call_same : solve 20 ex_facts (cm "call" [cm "p" [Var 0]]) (Var 0) = Done [Int 1; Int 2; Int 3] None [].
+Proof. vm_compute. reflexivity. Qed.
